@@ -584,7 +584,7 @@ PROPS["C05"] = {
     "oracles": [no_panic_oracle],
     "rule": "seeded rows with 0-4 clock columns and 0-5 X entries on 1-bit, multi-bit and bidirectional inputs, X/Z in expected columns, mixed with literals, expressions and bits(), "
             "at loop depth 0-3; projection = call kinds and vectors, rows (inputs, expected, line); non-trivial = at least 3 rows",
-    "proved": "prepare_cache+pop iterated until the cache is empty = ExpandSpec.expand_spec (2^k assignments, leftmost fastest, 0 before 1; clock triple 0,1,0 with only the last checked; "
+    "proved": "run level through errors (ExpansionRunProof): the calls belonging to one source row send exactly spec_rows of that row, each vector once, in order, whatever becomes of the calls; which calls read outputs; group sizes; prepare_cache+pop iterated until the cache is empty = ExpandSpec.expand_spec (2^k assignments, leftmost fastest, 0 before 1; clock triple 0,1,0 with only the last checked; "
               "expected columns blanked in the unchecked rows) for every row and every index vectors, with explicit fuel bound; row count formula; non-input columns never expanded",
     "validated_only": "that expand_x / expand_c / get_row of src/data_row_iterator.rs behave as Iter.v",
     "assumptions": ["Iter.v models src/data_row_iterator.rs (checked by the correspondence runs of this check)"],
@@ -846,7 +846,7 @@ PROPS["C17"] = {
     "rule": "seeded programs with random(n) in row entries, lets, loop bounds, while conditions and ite branches, n in {2,3,10,100,2^31,2^62}, resetRandom at statement level; seeds from the case PRNG "
             "(hook: seed override); the implementation's generator events (bound, draw, reset) are logged through the verif-hooks feature, checked for range / one draw per evaluation / replay after reset, "
             "and replayed into the model as its oracle G; non-trivial = at least one draw",
-    "proved": "random(e): bound < 2 -> error and no draw, else exactly one draw from [1,n) recorded in the history; with rand's range contract 0 <= r < n; evaluation only appends to the history; "
+    "proved": "run level through errors (RandomRunProof): what every call of next() does to the generator history (case table), every draw of every run in range, replay after reset at run level, errors keep their draws; random(e): bound < 2 -> error and no draw, else exactly one draw from [1,n) recorded in the history; with rand's range contract 0 <= r < n; evaluation only appends to the history; "
               "no draw without a random node; unselected ite branch draws nothing; resetRandom restores the initial generator state; 'as if literals' as a program transformation: literalize replaces exactly the "
               "evaluated, drawing random(..) calls by the drawn values (a literal-substitution instance), the literal expression / data row gives the same result (value or error) with ANY generator and draws "
               "nothing, one literal per draw; the drawn values are a function of generator, start history and bound sequence only, so the same bounds after a reset replay the same values",
